@@ -491,37 +491,45 @@ def e2e_projects(ck, rng, count):
 
 
 def namespace_cycle(ck):
-    """a cycle between two modules of a directory without __init__.py (PEP 420), imported with `from nsdir import m`"""
-    d = lib.fresh_dir("c11_e2e_ns")
-    os.makedirs(os.path.join(d, "nsdir"))
-    open(os.path.join(d, "requirements.txt"), "w").close()
-    with open(os.path.join(d, "nsdir", "left.py"), "w") as f:
-        f.write("from nsdir import right\nvalue = 1\n")
-    with open(os.path.join(d, "nsdir", "right.py"), "w") as f:
-        f.write("from nsdir import left\nvalue = 2\n")
-    with open(os.path.join(d, "entry.py"), "w") as f:
-        f.write("import nsdir.left\n")
-    rc, data, err = lib.analyze_json(d, ["--select", "deps"])
-    try:
-        cd = data["system"]["DependencyAnalysis"]["CircularDependencies"] or {}
-    except Exception:
-        ck.broken_ties.append("e2e namespace project: no report (rc=%s) %s" % (rc, err[-200:]))
-        return
-    got = sorted(sorted(c["Modules"]) for c in (cd.get("CircularDependencies") or []))
-    want = [["nsdir.left", "nsdir.right"]]
-    replay = {"kind": "e2e-namespace", "dir": d, "analyze_cycles": got}
-    if got != want:
-        ck.violation("`pyscn analyze` reports cycles %s for two modules of a namespace package that import each other (expected %s)" % (got, want), replay)
-        return
-    rc2, out2, err2 = lib.pyscn(["check", "--select", "deps", "."], d)
-    lines = re.findall(r"circular dependency detected: (.*)", out2 + err2)
-    chk = sorted(sorted(x.strip() for x in l.split("->")) for l in lines)
-    if chk != want or rc2 == 0:
-        ent = ck.match_known({"kind": "e2e-namespace", "check_misses_cycle": chk == [] and rc2 == 0})
-        if ent:
-            ck.known_finding(ent)
-        else:
-            ck.violation("`pyscn check --select deps` lists cycles %s (exit %d), `pyscn analyze` lists %s" % (chk, rc2, got), replay)
+    """cycles between modules of directories without __init__.py (PEP 420), imported with `from nsdir import m`: `pyscn analyze`
+    and `pyscn check --select deps` (which builds its graph with include_third_party = false) must list the same cycles
+    (they did not before fix 8ba1334: F66)"""
+    projects = [
+        ("flat", {"nsdir/left.py": "from nsdir import right\nvalue = 1\n", "nsdir/right.py": "from nsdir import left\nvalue = 2\n",
+                  "entry.py": "import nsdir.left\n"},
+         [["nsdir.left", "nsdir.right"]]),
+        ("nested", {"ns/deep/a.py": "from ns.deep import b\n", "ns/deep/b.py": "from ns.deep import c\n", "ns/deep/c.py": "from ns.deep import a\n",
+                    "ns/x.py": "from ns import y\n", "ns/y.py": "from ns import x\nfrom ns.deep import a\n",
+                    "reg/__init__.py": "", "reg/m.py": "from ns import x\n", "entry.py": "from reg import m\n"},
+         [["ns.deep.a", "ns.deep.b", "ns.deep.c"], ["ns.x", "ns.y"]]),
+        ("mixed", {"ns/p.py": "from reg import q\n", "reg/__init__.py": "", "reg/q.py": "from ns import p\n",
+                   "ns/lone.py": "from ns import nothing_here\nfrom nosuchdir import thing\n"},
+         [["ns.p", "reg.q"]]),
+    ]
+    for name, files, want in projects:
+        d = lib.fresh_dir("c11_e2e_ns_" + name)
+        open(os.path.join(d, "requirements.txt"), "w").close()
+        for rel, text in files.items():
+            os.makedirs(os.path.dirname(os.path.join(d, rel)), exist_ok=True)
+            with open(os.path.join(d, rel), "w") as f:
+                f.write(text)
+        rc, data, err = lib.analyze_json(d, ["--select", "deps"])
+        try:
+            cd = data["system"]["DependencyAnalysis"]["CircularDependencies"] or {}
+        except Exception:
+            ck.broken_ties.append("e2e namespace project %s: no report (rc=%s) %s" % (name, rc, err[-200:]))
+            continue
+        got = sorted(sorted(c["Modules"]) for c in (cd.get("CircularDependencies") or []))
+        replay = {"kind": "e2e-namespace", "project": files, "analyze_cycles": got}
+        if got != want:
+            ck.violation("`pyscn analyze` reports cycles %s for modules of a namespace package that import each other (expected %s)" % (got, want), replay)
+            continue
+        rc2, out2, err2 = lib.pyscn(["check", "--select", "deps", "."], d)
+        lines = re.findall(r"circular dependency detected: (.*)", out2 + err2)
+        chk = sorted(sorted(x.strip() for x in l.split("->")) for l in lines)
+        if chk != want or rc2 == 0:
+            ck.violation("`pyscn check --select deps` lists cycles %s (exit %d), `pyscn analyze` lists %s (modules of a namespace package)"
+                         % (chk, rc2, got), dict(replay, check_cycles=chk, check_exit=rc2))
 
 
 def main(tier):
